@@ -1474,6 +1474,14 @@ def publication(ctx, py, fn, tail, CONV, TARGET, STACK, receivers):
                 for c in _own(a):
                     if isinstance(c, ast.Call) and isinstance(c.func, ast.Attribute) and c.func.attr == attr and len(c.args) == 1:
                         iso = [(m.group(1), b) for cnd, b in sp.conds for m in [re.fullmatch(r'isinstance\((\w+), AxiomWithAntecedents\)', cnd)] if m]
+                        # the choice written as a conditional expression (`append(A if isinstance(ax, AxiomWithAntecedents) else B)`)
+                        if not iso and isinstance(c.args[0], ast.IfExp):
+                            m_ = re.fullmatch(r'isinstance\((\w+), AxiomWithAntecedents\)', ast.unparse(c.args[0].test))
+                            if m_:
+                                for pol_, e_ in ((True, c.args[0].body), (False, c.args[0].orelse)):
+                                    arg_ = inline_locals(sp.actions, e_, {m_.group(1)})
+                                    out.setdefault(pol_, set()).add(re.sub(rf'\b{m_.group(1)}\b', '$AX', ast.unparse(arg_)))
+                                continue
                         # the choice made by a shared module-level helper `H(axiom)`: its two returns, under its own class test
                         a0 = inline_locals(sp.actions, c.args[0], {iso[0][0]} if iso else set())
                         h = py.module(TR).functions.get(a0.func.id) if isinstance(a0, ast.Call) and isinstance(a0.func, ast.Name) and len(a0.args) == 1 \
